@@ -110,7 +110,7 @@ def fnvModel : List String → String
 /-
   c05.retry  kind robin keyhex hosts maxConns maxFails tryDuration interval failTimeout bodyLen framing
      framing = cl (Content-Length = bodyLen; 0 = http.NoBody) | chunked (ContentLength -1, non-nil Body) | nil (Body nil)
-     hosts = comma list of  u/c/script  (u: 1 unhealthy; base conns; script letters K ok, F fail before
+     hosts = comma list of  u/c/script  (u: 1 unhealthy; base conns; script letters K ok, H = F followed by a passing health check of every backend before the next Select, F fail before
              reading the body, R fail after reading it, C client cancelled, T body too large)
      durations in milliseconds = ticks
      out   = <result> TAB <attempts: host:body,...>   result = ok|502|499|413
@@ -119,6 +119,7 @@ open Casket.Retry in
 def parseOutcome : Char → Option Outcome
   | 'K' => some .ok
   | 'F' => some (.fail false)
+  | 'H' => some (.fail false)
   | 'R' => some (.fail true)
   | 'C' => some .cancel
   | 'T' => some .tooLarge
